@@ -6,7 +6,7 @@
 set -u
 NAME="$1"; FEAT="${2:-}"
 DIR="/verif/seeded/$NAME"; W="/tmp/confirm-$NAME"
-export CARGO_TARGET_DIR=/tmp/confirm-target CARGO_NET_OFFLINE=true
+export CARGO_TARGET_DIR="${CONFIRM_TARGET:-/tmp/confirm-target}" CARGO_NET_OFFLINE=true
 rm -rf "$W"; git -C /repo worktree prune
 git -C /repo worktree add --detach "$W/repo" HEAD >/dev/null 2>&1 || { echo "worktree failed"; exit 2; }
 trap 'git -C /repo worktree remove --force "$W/repo" >/dev/null 2>&1; rm -rf "$W"' EXIT
